@@ -743,6 +743,9 @@ def eval_exp_recurse(tree: lark.Tree) -> Any:
             unaryop = op.children[0]
             code += f'{unaryop.children[0]}({eval_exp_recurse(op.children[1])})'
             continue
+        elif op.data == 'parenexp':
+            code += f'({eval_exp_recurse(op.children[0])})'
+            continue
         elif op.data == 'usub':
             code += '-'
         elif op.data == 'pow':
